@@ -18,6 +18,14 @@ Extracted (all from the working tree's source, every run):
   * the truth table of the getter `FortranProcedure.permission` (by evaluating the property on stub
     objects: parent = generic interface / non-generic interface / module): does a procedure report its
     parent's permission (`readGeneric`, `readWrapper`, `readModule`)
+  * the two character tables of the *name keying* of declarations, measured by parsing one-line modules with the
+    code under test, one per printable ASCII character c (`probe_decl_names`):
+      - `declDropChars`: `integer :: ab<c>(2)` declares the array `ab` (shape `(2)`): c is dropped from an
+        entity-decl before the name is taken (as the code stands: the blank)
+      - `cutChars`: `integer :: ab<c>2` declares `ab` with the "dimension" `<c>2`: c ends the name
+        (`FortranVariable.__init__`: `(`, `*`, `[`)
+    and the characters at which `ford.utils.paren_split` changes its nesting level (`splitLevelChars`,
+    evaluated on the real function; the shared model `Ford.parenSplit` has them built in).
 A construct that cannot be found raises (=> "tie broken", never a pass).
 """
 from __future__ import annotations
@@ -212,7 +220,47 @@ def extract(repo: Path) -> dict:
     # the permissions that put an entity into a module's pub_* tables
     t["exportWords"] = _one(_in_lists(_func(tree, "FortranModule", "_cleanup")), "FortranModule._cleanup should_be_public")
     t.update(probe_getter())
+    t.update(probe_decl_names())
     return t
+
+
+def probe_decl_names() -> dict:
+    """Character tables of the name keying of declarations, measured on the code under test (see the module
+    docstring).  Every probe is a real parse of a three-line module."""
+    from harness import common
+
+    common.import_ford()
+    import ford.sourceform as sf
+    import ford.utils
+    from ford.settings import ProjectSettings
+
+    chars = [chr(i) for i in range(32, 127)]
+    with common.scratch_dir("c04-tr-") as d:
+        d = Path(d)
+        settings = ProjectSettings(src_dir=[d], preprocess=False, dbg=True, warn=False)
+
+        def variables(decl):
+            f = d / "probe.f90"
+            f.write_text(f"module c04_tr_probe\n{decl}\nend module c04_tr_probe\n")
+            sf.namelist = sf.NameSelector()
+            try:
+                with common.quiet():
+                    src = sf.FortranSourceFile(str(f), settings)
+                return [(v.name, v.dimension) for m in src.modules for v in m.variables]
+            except Exception:  # this character breaks the statement: not a member of either table
+                return None
+
+        if variables("integer :: ab") != [("ab", "")]:
+            raise NotFound("probe_decl_names: `integer :: ab` is not parsed as the declaration of `ab`")
+        drop = [c for c in chars if variables(f"integer :: ab{c}(2)") == [("ab", "(2)")]]
+        cut = [c for c in chars if variables(f"integer :: ab{c}2") == [("ab", c + "2")]]
+    if not cut:
+        raise NotFound("probe_decl_names: no character ends the name of an entity-decl (array-spec not recognised)")
+    # characters after which a top-level comma no longer splits (they change paren_split's nesting level) ...
+    level = [c for c in chars if c != "," and len(ford.utils.paren_split(",", "a" + c + ",b")) == 1]
+    # ... and the pairs (opener, closer) that bring it back to zero
+    pairs = [o + c for o in level for c in level if len(ford.utils.paren_split(",", o + "a" + c + ",b")) == 2]
+    return {"declDropChars": drop, "cutChars": cut, "splitLevelChars": level, "splitPairs": pairs}
 
 
 def probe_getter() -> dict:
@@ -274,6 +322,13 @@ def render(t: dict) -> str:
         L.append(f"def {k} : Perm := {PERM[t[k]]}")
     for k in ("bareSetsChild", "bareSetsSelf", "readGeneric", "readWrapper", "readModule"):
         L.append(f"def {k} : Bool := {'true' if t[k] else 'false'}")
+
+    def ch(c):
+        return "'\\''" if c == "'" else "'\\\\'" if c == "\\" else f"'{c}'"
+
+    for k in ("declDropChars", "cutChars", "splitLevelChars"):
+        L.append(f"def {k} : List Char := [" + ", ".join(ch(c) for c in t[k]) + "]")
+    L.append("def splitPairs : List (Char × Char) := [" + ", ".join(f"({ch(p[0])}, {ch(p[1])})" for p in t["splitPairs"]) + "]")
     L += ["", "end Ford.Access", ""]
     return "\n".join(L)
 
